@@ -204,3 +204,23 @@ pub fn addressed_roundtrip() {
     assert!(d == v && off == 21);
     kani::cover!(true);
 }
+
+// C13 / C01 (storage slots): the composite key of the account-memory table lays the 20 address bytes, 12 zero bytes and the
+// 32 big-endian bytes of the slot out in DISJOINT positions of its 64-byte encoding - so two different (address, slot) pairs
+// never share a key (the injectivity that unit dbfacade assumes as axiom_u512_key_injective) and keys sort by address, then slot.
+#[kani::proof]
+#[kani::unwind(66)]
+pub fn u512_key_layout() {
+    let addr: [u8; 20] = kani::any();
+    let limbs: [u64; 4] = kani::any();
+    let slot = alloy::primitives::Uint::<256, 4>::from_limbs(limbs);
+    let key = U512ED::from_addr_u256(addr.into(), slot).unwrap();
+    let mut buf: Vec<u8> = Vec::new();
+    key.encode(&mut buf);
+    assert!(buf.len() == 64);
+    assert!(buf[0..20] == addr);
+    assert!(buf[20..32] == [0u8; 12]);
+    let be: [u8; 32] = slot.to_be_bytes::<32>();
+    assert!(buf[32..64] == be);
+    kani::cover!(true);
+}
